@@ -5,7 +5,7 @@
    Model: Model/Bip39.v;  standard: Spec/Bip39.v (bit strings, most significant bit first). *)
 From Coq Require Import ZArith List.
 Require Import Bits.Lib.Result Bits.Lib.Bytes Bits.Lib.RadixW.
-Require Import Bits.Spec.Bip39 Bits.Model.Bip39 Bits.Proofs.Bip39.
+Require Import Bits.Spec.Bip39 Bits.Model.Bip39 Bits.Proofs.Bip39 Bits.Proofs.Bip39Spec.
 Require Bits.Gen.Wordlist Bits.GenProps.Wordlist.
 Import ListNotations.
 
@@ -24,6 +24,16 @@ Theorem C10_mnemonic_length :
         mnemonic_words sha256 wl e = Err ValueE /\ calculate_mnemonic_phrase sha256 wl e = Err ValueE).
 Proof. exact mnemonic_length. Qed.
 Print Assumptions C10_mnemonic_length.
+
+(* the words are the ones the standard prescribes: entropy bits followed by the first ENT/32 bits of
+   SHA-256(entropy), cut into groups of 11 bits, each group the index of a word [spec_mnemonic] *)
+Theorem C10_mnemonic_is_spec :
+  forall (sha256 : bytes -> bytes) (wl : list bytes),
+  (forall m, length (sha256 m) = 32%nat) -> length wl = 2048%nat ->
+  forall e : bytes, In (length e) [16; 20; 24; 28; 32]%nat ->
+    mnemonic_words sha256 wl e = Ok (spec_mnemonic sha256 wl e).
+Proof. exact mnemonic_is_spec. Qed.
+Print Assumptions C10_mnemonic_is_spec.
 
 (* the mnemonic converts back to exactly the entropy it was made from *)
 Theorem C10_entropy_roundtrip :
